@@ -80,6 +80,7 @@ def call_object(n):
     return None
 
 
+import re
 import os as _os
 RENDER_EXPAND = _os.environ.get("MPSA_RENDER_EXPAND", "1") in ("1", "all")
 RENDER_EXPAND_ALL = _os.environ.get("MPSA_RENDER_EXPAND", "1") == "all"
@@ -1109,9 +1110,63 @@ class MiniInt:
     and calls - first offered to atom(text, node, env) (return None to decline), then inlined when the callee body is
     exported.  Nothing of the program under analysis is run; the interpreter walks the AST."""
 
-    def __init__(self, F, atom, max_depth=3, mem=None):
+    def __init__(self, F, atom, max_depth=3, mem=None, seq=None):
         self.F, self.atom, self.max_depth = F, atom, max_depth
         self.mem = mem          # mem(address) -> value, for `*p` / `p[i]` over a modelled buffer (pointers are integers)
+        self.seq = seq          # seq(text, node, env) -> list of element values of a container expression (range-for, algorithms)
+        self.cur = []           # stack of the functions being evaluated (to find the lambdas they define)
+
+    def _lambda_of(self, node):
+        """the operator() of the lambda written at `node` (a LambdaExpr, possibly wrapped), looked up among the exported functions"""
+        lam = next((x for x in walk(node) if x["k"] == "LambdaExpr"), None)
+        cands = []
+        for g in (self.cur[-1:] or []):
+            cands = [h for h in self.F.funcs if h.qn == g.qn + "::(lambda)::operator()" and not h.is_dependent()]
+        if lam is not None and len(cands) > 1:
+            loc = (lam.get("l") or "").rsplit(":", 1)[0]
+            near = [h for h in cands if (h.loc or "").rsplit(":", 1)[0] == loc]
+            cands = near or cands
+        seen, uniq = set(), []
+        for h in cands:
+            if h.loc not in seen:
+                seen.add(h.loc)
+                uniq.append(h)
+        return uniq[0] if len(uniq) == 1 else None
+
+    def _algorithm(self, n, env, depth):
+        from .facts import AnalysisBroken
+        name = (n.get("callee") or "").split("::")[-1]
+        a = call_args(n)
+        t0 = render(a[0]).replace(" ", "")
+        cont = re.sub(r"\.c?begin\(\)$", "", t0)
+        elems = self.seq(cont, a[0], env) if self.seq is not None else None
+        if elems is None:
+            raise AnalysisBroken("MiniInt: container `%s` of %s is not modelled" % (cont, name))
+        if name == "count" and len(a) == 3:
+            v = self.expr(a[2], env, depth)
+            return sum(1 for e_ in elems if e_ == v)
+        h = self._lambda_of(a[2])
+        if h is None:
+            raise AnalysisBroken("MiniInt: the predicate of %s is not a lambda of this function" % name)
+        vals = []
+        for e_ in elems:
+            env2 = dict(env)
+            env2[h.params[0]["declId"]] = e_
+            body = [x for x in h.roots if x is not None and x["k"] == "CompoundStmt"]
+            try:
+                self.run(kids(body[-1]), env2, depth + 1)
+                vals.append(0)
+            except _CaseReturn as r_:
+                vals.append(r_.node)
+        if name == "any_of":
+            return int(any(vals))
+        if name == "all_of":
+            return int(all(vals))
+        if name == "none_of":
+            return int(not any(vals))
+        if name == "count_if":
+            return sum(1 for v in vals if v)
+        raise AnalysisBroken("MiniInt: algorithm %s" % name)
 
     def expr(self, n, env, depth=0):
         from .facts import AnalysisBroken
@@ -1119,6 +1174,8 @@ class MiniInt:
         k = n["k"]
         if k in ("IntegerLiteral", "CharacterLiteral"):
             return int(n["v"])
+        if k == "FloatingLiteral":
+            return float(n["v"])
         if k == "CXXBoolLiteralExpr":
             return int(str(n.get("v")).lower() in ("true", "1"))
         if k == "DeclRefExpr" and n.get("declId") in env:
@@ -1127,14 +1184,17 @@ class MiniInt:
             try:
                 return int(n["cv"])
             except ValueError:
-                pass
+                try:
+                    return float(n["cv"])
+                except ValueError:
+                    pass
         if k == "DeclRefExpr" and n.get("dk") == "EnumConst" and "cv" in n:
             return int(n["cv"])
         if k not in ("UnaryOperator", "BinaryOperator", "CompoundAssignOperator", "ConditionalOperator"):
             t = render(n).replace(" ", "").replace("this->", "")
             r = self.atom(t, n, env)
             if r is not None:
-                return int(r)
+                return r if isinstance(r, float) else int(r)
         if k == "UnaryOperator" and n.get("op") == "*" and self.mem is not None:
             return int(self.mem(self.expr(kids(n)[0], env, depth)))
         if k == "ArraySubscriptExpr" and self.mem is not None:
@@ -1180,6 +1240,8 @@ class MiniInt:
             return self.expr(kids(n)[0], env, depth)
         if k == "CXXThrowExpr":
             raise CaseThrow(render(n)[:80])
+        if k == "CallExpr" and (n.get("callee") or "").split("::")[-1] in ("any_of", "all_of", "none_of", "count_if", "count") and len(call_args(n)) == 3:
+            return self._algorithm(n, env, depth)
         if k in ("CallExpr", "CXXMemberCallExpr") and depth < self.max_depth:
             g = getattr(self.F, "_by_id", {}).get(n.get("calleeId"))
             if g is not None and g.roots:
@@ -1196,10 +1258,13 @@ class MiniInt:
         from .facts import AnalysisBroken
         env = {p["declId"]: v for p, v in zip(g.params, args)}
         body = [x for x in g.roots if x is not None and x["k"] == "CompoundStmt"]
+        self.cur.append(g)
         try:
             self.run(kids(body[-1]), env, depth)
         except _CaseReturn as r:
             return r.node
+        finally:
+            self.cur.pop()
         raise AnalysisBroken("MiniInt: %s has a path without a return" % g.name)
 
     def run(self, stmts, env, depth=0, stop=None):
@@ -1216,7 +1281,16 @@ class MiniInt:
             elif k == "DeclStmt":
                 for v in kids(s):
                     if v["k"] == "VarDecl":
-                        env[v["declId"]] = self.expr(kids(v)[0], env, depth) if kids(v) else 0
+                        if not kids(v):
+                            env[v["declId"]] = 0
+                            continue
+                        try:
+                            env[v["declId"]] = self.expr(kids(v)[0], env, depth)
+                        except AnalysisBroken:
+                            if self._opaque(v, env):
+                                env[v["declId"]] = ("obj", kids(v)[0], env)      # a non-scalar local (reference to a container, ...)
+                            else:
+                                raise
             elif k == "IfStmt":
                 ch = [x for x in s["c"] if x is not None]
                 if ch and ch[0]["k"] == "DeclStmt":          # if (auto v = init): the condition is the variable
@@ -1269,6 +1343,22 @@ class MiniInt:
                         self.expr(inc_, env, depth)
                 else:
                     raise AnalysisBroken("MiniInt: loop does not terminate on the modelled input")
+            elif k == "CXXForRangeStmt":
+                lv = [x for x in walk(s) if x["k"] == "VarDecl" and x.get("name") and not x["name"].startswith("__")]
+                rng = [x for x in walk(s) if x["k"] == "VarDecl" and (x.get("name") or "").startswith("__range") and kids(x)]
+                body_ = [x for x in s.get("c", []) if x is not None][-1]
+                elems = self.seq(render(kids(rng[0])[0]).replace(" ", ""), kids(rng[0])[0], env) if (self.seq is not None and lv and rng) else None
+                if elems is None:
+                    raise AnalysisBroken("MiniInt: range of the range-for is not modelled")
+                for e_ in elems:
+                    env[lv[0]["declId"]] = e_
+                    try:
+                        if self.run([body_], env, depth, stop):
+                            return True
+                    except _LoopBreak:
+                        break
+                    except _LoopContinue:
+                        pass
             elif k == "ContinueStmt":
                 raise _LoopContinue()
             elif k == "BreakStmt":
